@@ -12,6 +12,31 @@ def gen(rng):
         return name
     cur = connect(rng.choice([0, 1]))
     tag = 0
+    if v == 4 and rng.random() < 0.12:
+        # MANY identifiers open at once (a 3.1.1 publisher is not bound by a Receive Maximum; seed C04-6): 101–115 QoS 2 publishes
+        # with distinct ids and no PUBREL, optionally a reconnect with Clean Session 0, then retransmissions of the oldest and the
+        # newest ids (nothing may be forwarded twice), then the PUBRELs
+        k = rng.randint(101, 115)
+        sack = ["ack s puback all", "ack s pubrec all", "ack s pubcomp all"]
+        tags = {}
+        for i in range(k):
+            tag += 1
+            tags[1000 + i] = f"m{tag}"
+            ops.append(f"pub {cur} t/a q=2 pid={1000 + i} d=0 tag=m{tag}")
+            ops += sack
+        if rng.random() < 0.5:
+            ops.append(f"close {cur}")
+            cur = connect(0)
+        again = list(range(1000, 1000 + rng.randint(2, 6))) + list(range(1000 + k - rng.randint(1, 4), 1000 + k))
+        rng.shuffle(again)
+        for p in again:
+            ops.append(f"pub {cur} t/a q=2 pid={p} d=1 tag={tags[p]}")
+            ops += sack
+        for p in sorted(tags):
+            if rng.random() < 0.9:
+                ops.append(f"rel {cur} {p}")
+        ops += sack
+        return ops
     for _ in range(rng.randint(5, 25)):
         r = rng.random()
         if r < 0.5:
